@@ -147,7 +147,8 @@ def rtdc_copy(src_h5file: h5py.Group,
                                 src_name=feat,
                                 dst_loc=dst_h5file["events"],
                                 recursive=True)
-                if scalar_feature_exists(feat):
+                if dst is not None and scalar_feature_exists(feat):
+                    # (`dst` is None for empty datasets)
                     # complement min/max values for all scalar features
                     for ufunc, attr in [(np.nanmin, "min"),
                                         (np.nanmax, "max"),
